@@ -2,19 +2,23 @@
    integer label ids; the in-Coq comparison used by the correspondence K_solve.  Definitions only. *)
 From Coq Require Import PrimFloat ZArith List Bool.
 Import ListNotations.
-Require Import PyBase Solver SolverF SolveAll.
+Require Import PyBase Solver SolverF SolveAll SolveAllSpan.
 Open Scope Z_scope.
 
 Fixpoint zlookup {A} (x : Z) (l : list (Z * A)) : option A :=
   match l with [] => None | (y, a) :: r => if x =? y then Some a else zlookup x r end.
 
-(* how the span object is searched:
-   0 = span.index (list, tuple, range)   1 = the fallback (NumPy array)   2 = answers recorded from the run (pandas get_loc) *)
+(* how the span object is searched (SolveAllSpan.locate_span = the dispatch of _locate_period_in_span over the regenerated
+   method list):
+   0 = list / tuple / range (span.index)   1 = NumPy array (the static fallback)
+   2 = answers recorded from the run (PeriodIndex: get_loc parses strings, partial dates ...)
+   3 = pandas Index of plain labels (get_loc) *)
 Definition f_locate (kind : nat) (span : list Z) (tbl : list (Z * locres)) (x : Z) : locres :=
   match kind with
-  | O => locate_index span x
-  | S O => locate_unique span x
-  | _ => match zlookup x tbl with Some r => r | None => LFail end
+  | O => locate_span SpList span x
+  | S O => locate_span SpArray span x
+  | S (S O) => match zlookup x tbl with Some r => r | None => LFail end
+  | _ => locate_span SpIndex span x
   end.
 
 Definition f_solve (sc : scripts) (d : mdesc) (o : fopts) (kind : nat) (span : list Z) (tbl : list (Z * locres))
